@@ -42,6 +42,11 @@ claimed["C11"] = dict(
    note="Trusted: govc and the SMT solvers; go/types accessors as pure functions with the axioms of contracts/extern/base.spec (Scope.Names sorted and duplicate free, Lookup(n).Name()==n, a declared named type's Obj().Type() is itself, distinct named types have distinct qualified names, aliases are *types.Alias); sort.Slice; fetchEnumsAndUnions (recursive closure over the import graph) has an ASSUMED contract (keys are named types, enum nodes non-nil) and a bounded harness; fetchStructComments is opaque. NOT proved: that every struct node reachable through links is a value of the table (closure half of C12).",
    ref="DESIGN §4 C11")
 
+claimed["C09"] = dict(
+   text="Kernel claim (" + KERNEL_NOTE + "). Proved for all inputs: StructField.JSONName returns the name part of the json tag (strings.Cut at the first comma) when not empty, else the Go field name; StructField.Exported holds exactly when the Go field is exported, the json tag is not \"-\" and the gomacro tag is not \"ignore\" (the encoding/json rules, transcribed); handleStructFields yields, for every non-embedded field, an entry carrying exactly that field's variable and tag; and the skip lemma in the four generator loops that consume the fields (typescript.codeForStruct, dart.jsonForStruct, dart.codeForStruct, generator/sql.codeForStruct): an iteration on a field that is not Exported() leaves every loop-carried variable unchanged. An always-run bounded harness compares with encoding/json itself (reflect.StructOf + json.Marshal) and checks the metamorphic pair (struct, struct + ignored fields). Two genuine deviations are recorded as known findings (tagged / hidden embedded structs are flattened; ignored fields of unsupported types abort the analysis).",
+   note="Trusted: govc and the SMT solvers; reflect.StructTag.Get and strings.Cut as uninterpreted functions; the transcription of the encoding/json field rules; nodes of the analysis result are not written outside package analysis (checked syntactically at load); in the generator loops every callee without contract is havocked. Not decided: that the emitted TypeScript / Dart / PL-pgSQL texts actually use the key (needs their grammars); which fields an embedded struct contributes (known finding).",
+   ref="DESIGN §4 C09")
+
 not_applicable = {
  "C01": "type-checking of emitted Go text for all inputs needs a typing judgement over Sprintf templates; no contract on a Go function returning a string can express it (DESIGN §5)",
  "C02": "round trip and wire bytes are run-time behaviour of the emitted wrappers under encoding/json; a contract on the generator can only restate its templates (DESIGN §5)",
